@@ -90,7 +90,13 @@ def step (_ : Unit) (toks : List String) : Unit × String :=
       let sh (x : Except Err Outcome) : String := match x with
         | .ok o => showOutcome o
         | .error er => errStr er
-      ((), s!"client[{sh r.client}] server[{sh r.server}] denied={b01 r.denied}")
+      -- the identities the two ends report: equal, or the display-only fallback of an anonymous session
+      let users : String := match r.client, r.server with
+        | .ok co, .ok so =>
+          if co.user == so.user then "same"
+          else if so.user == "" && co.user == "unauthenticated@unmapped" then "anon" else "differ"
+        | _, _ => "-"
+      ((), s!"client[{sh r.client}] server[{sh r.server}] denied={b01 r.denied} users={users}")
     | _, _, _, _, _, _, _, _, _, _, _, _ => ((), "bad-op")
   | _ => ((), "bad-op")
 
